@@ -136,6 +136,9 @@ class Parse(ProducerContract):
             if not (isinstance(v, ORef) and issubclass(st.obj(v).cls, P._Awaitable)):
                 st.oblige('yield%d:awaitable-expected' % k, BoolVal(False))
                 raise PathEnd('bad awaitable')
+            if k == 2:
+                # validator state at the start of this frame (for 'reset only when a data message ends')
+                st.ghost['vstate_iter'] = iv(st.get(st.get(a.self, '_utf8_validator'), '_state'))
             if k in (6, 7):
                 # text_open as of the start of this frame
                 st.ghost['text_open_now'] = st.ghost['text_open']
@@ -195,6 +198,7 @@ class Parse(ProducerContract):
             s1 = mk(ip, T.Int(0, 8), 'vstate')
             st.assume(s1 != 1)
             st.heap[val.oid].f['_state'] = s1
+            st.ghost['vstate_iter'] = s1
         return b
 
     def check_frame(self, ip, a, f):
@@ -232,6 +236,11 @@ class Parse(ProducerContract):
         st.ghost['text_open'] = new_to
         st.oblige('yield8:is_text-flag-means-a-text-message-is-open', st.get(a.self, '_is_text') == new_to, tags=('C05',))
         val = st.get(a.self, '_utf8_validator')
+        # the incremental validator carries the state of the open text message across frames: it may
+        # be restarted only by the frame that ends a data message, never by a control frame or a
+        # non-final fragment (else the verdict would depend on how the text was split - C05)
+        st.oblige('yield8:validator-state-carried-across-frames(reset only when a data message ends)',
+                  Or(iv(st.get(val, '_state')) == st.ghost['vstate_iter'], And(Not(comp), d.fin == 1, d.opcode < 8)), tags=('C05', 'C02'))
         st.oblige('yield8:validator-restarts-when-a-text-message-completes',
                   Implies(And(Not(comp), to if False else Or(d.opcode == 1, And(d.opcode == 0, to)), d.fin == 1), iv(st.get(val, '_state')) == 0), tags=('C05',))
 
